@@ -105,6 +105,20 @@ def confirm_rejection(binary, shard, rej, wd, n, module, cfg, watchdog=10):
             fh.write(json.dumps(op) + "\n")
     events = vlib.run_driver(binary, sp, tp, watchdog=watchdog)
     v = vlib.validate_trace(module, cfg, tp, wd, "confirm%d" % n, max_rejections=1)
+    if not v["rejected"] and not events and rej["exec_index"] > 0:
+        # Alone it is accepted.  State that outlives a library object (a process-wide cache filled by the first library a process
+        # opens) only shows in the process that ran the earlier executions of the shard: re-run the execution in that context -
+        # the (at most 40) executions before it, then itself, in one process.  A rejection that repeats there is deterministic
+        # and is reported with the whole script.
+        first = max(0, rej["exec_index"] - 40)
+        script = []
+        for k in range(first, rej["exec_index"] + 1):
+            script += script_of_exec(shard, k)
+        with open(sp, "w") as fh:
+            for op in script:
+                fh.write(json.dumps(op) + "\n")
+        events = vlib.run_driver(binary, sp, tp, watchdog=watchdog)
+        v = vlib.validate_trace(module, cfg, tp, wd, "confirm%dctx" % n, max_rejections=1)
     if not v["rejected"] and not events:
         return None
     recs = vlib.load_trace(tp)
